@@ -105,7 +105,13 @@ where
     T: Logos<'a, Source = str, Extras = (), Error = ()> + Tok,
 {
     let s: &'a str = std::str::from_utf8(req.input).expect("harness feeds valid UTF-8 to str lexers");
-    let mut lex: Lexer<'a, T> = if req.partial { Lexer::new_partial(s) } else { Lexer::new(s) };
+    // the four constructors are interchangeable: which one is used alternates with the input length
+    let mut lex: Lexer<'a, T> = match (req.partial, s.len() % 2 == 0) {
+        (true, true) => Lexer::new_partial(s),
+        (true, false) => Lexer::partial_with_extras(s, ()),
+        (false, true) => Lexer::new(s),
+        (false, false) => Lexer::with_extras(s, ()),
+    };
     drive!(lex, s.len(), |i: usize| s.is_char_boundary(i), out, req);
 }
 
@@ -114,7 +120,12 @@ where
     T: Logos<'a, Source = [u8], Extras = (), Error = ()> + Tok,
 {
     let s: &'a [u8] = req.input;
-    let mut lex: Lexer<'a, T> = if req.partial { Lexer::new_partial(s) } else { Lexer::new(s) };
+    let mut lex: Lexer<'a, T> = match (req.partial, s.len() % 2 == 0) {
+        (true, true) => Lexer::new_partial(s),
+        (true, false) => Lexer::partial_with_extras(s, ()),
+        (false, true) => Lexer::new(s),
+        (false, false) => Lexer::with_extras(s, ()),
+    };
     drive!(lex, s.len(), |_i: usize| true, out, req);
 }
 
